@@ -22,6 +22,11 @@ fn main() {
         let x = unsafe { *p };
         r.observe("ub", x as u64);
     }
+    if args.get("uninit").is_some() {
+        let b: Box<std::mem::MaybeUninit<[u64; 4]>> = Box::new(std::mem::MaybeUninit::uninit());
+        let x = unsafe { std::ptr::read_volatile(b.as_ptr() as *const u64) };
+        if x == 42 { r.observe("uninit-42", 1); } else { r.observe("uninit-other", 1); }
+    }
     if args.get("race").is_some() {
         static mut X: u64 = 0;
         let a = std::thread::spawn(|| unsafe { for _ in 0..1000 { X += 1; } });
